@@ -16,6 +16,11 @@ pub struct Case {
     pub format: Format,
     pub input: B,
     pub cap: usize,
+    /// the record-set pass: (next() calls made before the first set read, n of read_record_set_exact or 0 = plain,
+    /// what is done to the set before its records are viewed: 0 nothing, 1 shrink_buffer_to_fit, 2 view a clone(),
+    /// 3 view a recycled set filled through clone_from(), 4 shrink_buffer_to_fit on that recycled copy)
+    #[serde(default)]
+    pub set_plan: (u8, u8, u8),
 }
 
 /// everything a record exposes, as owned values
@@ -106,6 +111,12 @@ fn fa_ref(r: &fasta::RefRecord, ctx: &mut Ctx) -> Result<(Snap, Snap), crate::en
     let mut snap = header_relations!(r, "fasta/ref");
     let lines: Vec<&[u8]> = r.seq_lines().collect();
     let concat: Vec<u8> = lines.concat();
+    // internal iteration sees the same lines as next()
+    let folded: Vec<u8> = r.seq_lines().fold(Vec::new(), |mut v, l| {
+        v.extend_from_slice(l);
+        v
+    });
+    ensure!(folded == concat, "fasta/seq_lines-fold", "lines visited by fold() concatenate to {:?}, those yielded by next() to {:?}", B(folded.clone()), B(concat.clone()));
     ensure!(r.owned_seq() == concat, "fasta/owned_seq", "owned_seq() = {:?}, concatenated lines = {:?}", B(r.owned_seq()), B(concat.clone()));
     let full = r.full_seq();
     ensure!(&full[..] == &concat[..], "fasta/full_seq", "full_seq() = {:?}, concatenated lines = {:?}", B::new(&full), B(concat.clone()));
@@ -179,7 +190,7 @@ impl Prop for Views {
     }
     fn strategy(&self, _tier: Tier) -> BoxedStrategy<Case> {
         let per = |f: Format| {
-            gen::input_and_cap(f, gen::any_input(f, true)).prop_map(move |(input, cap)| Case { format: f, input, cap })
+            (gen::input_and_cap(f, gen::any_input(f, true)), (prop_oneof![2 => Just(0u8), 1 => 1u8..5], prop_oneof![2 => Just(0u8), 1 => 1u8..6], 0u8..5)).prop_map(move |((input, cap), set_plan)| Case { format: f, input, cap, set_plan })
         };
         boxed(prop_oneof![per(Format::Fasta), per(Format::Fastq)])
     }
@@ -201,9 +212,44 @@ impl Prop for Views {
                 }
                 let mut rdr = fasta::Reader::with_capacity(&c.input[..], c.cap);
                 let mut set = fasta::RecordSet::default();
+                let mut recycled = fasta::RecordSet::default();
                 let mut i = 0;
-                while let Some(Ok(())) = rdr.read_record_set(&mut set) {
-                    for r in &set {
+                // some records are taken with next() first: the first record of the set then does not start the buffer
+                for _ in 0..c.set_plan.0 {
+                    match rdr.next() {
+                        Some(Ok(_)) => i += 1,
+                        _ => break,
+                    }
+                }
+                let mut k = 0usize;
+                loop {
+                    let res = if c.set_plan.1 == 0 { rdr.read_record_set(&mut set) } else { rdr.read_record_set_exact(&mut set, Some(c.set_plan.1 as usize + k % 3)) };
+                    k += 1;
+                    match res {
+                        Some(Ok(())) => {}
+                        _ => break,
+                    }
+                    let viewed: &fasta::RecordSet = match c.set_plan.2 {
+                        1 => {
+                            set.shrink_buffer_to_fit();
+                            &set
+                        }
+                        2 => {
+                            recycled = set.clone();
+                            &recycled
+                        }
+                        3 => {
+                            recycled.clone_from(&set);
+                            &recycled
+                        }
+                        4 => {
+                            recycled.clone_from(&set);
+                            recycled.shrink_buffer_to_fit();
+                            &recycled
+                        }
+                        _ => &set,
+                    };
+                    for r in viewed {
                         let (s, _) = fa_ref(&r, ctx)?;
                         ensure!(i < from_next.len(), "fasta/set-extra-record", "record sets deliver more records than next()");
                         ensure!(s == from_next[i], "fasta/set-vs-next/views-differ", "record {} from a record set: {:?}\n  from next(): {:?}", i, s, from_next[i]);
@@ -225,9 +271,44 @@ impl Prop for Views {
                 }
                 let mut rdr = fastq::Reader::with_capacity(&c.input[..], c.cap);
                 let mut set = fastq::RecordSet::default();
+                let mut recycled = fastq::RecordSet::default();
                 let mut i = 0;
-                while let Some(Ok(())) = rdr.read_record_set(&mut set) {
-                    for r in &set {
+                // some records are taken with next() first: the first record of the set then does not start the buffer
+                for _ in 0..c.set_plan.0 {
+                    match rdr.next() {
+                        Some(Ok(_)) => i += 1,
+                        _ => break,
+                    }
+                }
+                let mut k = 0usize;
+                loop {
+                    let res = if c.set_plan.1 == 0 { rdr.read_record_set(&mut set) } else { rdr.read_record_set_exact(&mut set, Some(c.set_plan.1 as usize + k % 3)) };
+                    k += 1;
+                    match res {
+                        Some(Ok(())) => {}
+                        _ => break,
+                    }
+                    let viewed: &fastq::RecordSet = match c.set_plan.2 {
+                        1 => {
+                            set.shrink_buffer_to_fit();
+                            &set
+                        }
+                        2 => {
+                            recycled = set.clone();
+                            &recycled
+                        }
+                        3 => {
+                            recycled.clone_from(&set);
+                            &recycled
+                        }
+                        4 => {
+                            recycled.clone_from(&set);
+                            recycled.shrink_buffer_to_fit();
+                            &recycled
+                        }
+                        _ => &set,
+                    };
+                    for r in viewed {
                         let (s, _) = fq_ref(&r)?;
                         ensure!(i < from_next.len(), "fastq/set-extra-record", "record sets deliver more records than next()");
                         ensure!(s == from_next[i], "fastq/set-vs-next/views-differ", "record {} from a record set: {:?}\n  from next(): {:?}", i, s, from_next[i]);
@@ -237,6 +318,13 @@ impl Prop for Views {
                 ensure!(i == from_next.len(), "fastq/set-fewer-records", "record sets delivered {} records, next() {}", i, from_next.len());
             }
         }
+        ctx.class(match c.set_plan.2 {
+            1 => "set pass: after shrink_buffer_to_fit()",
+            2 => "set pass: a clone() of the set",
+            3 => "set pass: a recycled set filled through clone_from()",
+            4 => "set pass: recycled clone_from() copy after shrink_buffer_to_fit()",
+            _ => "set pass: the set itself",
+        });
         ctx.class_n("records observed", from_next.len() as u64);
         if from_next.iter().any(|s| s.id.is_err() || s.desc == Some(Err(()))) {
             ctx.class("invalid UTF-8 in a header");
@@ -254,7 +342,7 @@ impl Prop for Views {
     }
 }
 
-pub const RULE: &str = "cases = (format, any input (documents with non-UTF-8 bytes, empty headers, leading/multiple spaces, empty lines inside sequences; mutations; soups), capacity). Every record returned by next() is observed three ways (borrowed, to_owned_record(), from a record set of a second reader over the same input) and the accessor relations of C13 are checked: concatenated seq_lines = owned_seq = full_seq = owned.seq; raw seq() minus line terminators = the same; num_seq_lines = len = count forwards = count backwards; full_seq borrowed iff one line; id/desc split at the first space; text accessors Ok iff valid UTF-8 and equal; all three observations expose identical values. Non-trivial = a record with >= 2 lines, or a space in the header, or invalid UTF-8. Distinct = hash(case).";
+pub const RULE: &str = "cases = (format, any input (documents with non-UTF-8 bytes, empty headers, leading/multiple spaces, empty lines inside sequences; mutations; soups), capacity). Every record returned by next() is observed three ways (borrowed, to_owned_record(), from a record set of a second reader over the same input - the set being filled by plain or exact-count reads, after 0..4 next() calls, and viewed directly, after shrink_buffer_to_fit(), as a clone() or as a recycled set filled through clone_from()) and the accessor relations of C13 are checked: concatenated seq_lines = owned_seq = full_seq = owned.seq; raw seq() minus line terminators = the same; num_seq_lines = len = count forwards = count backwards; full_seq borrowed iff one line; id/desc split at the first space; text accessors Ok iff valid UTF-8 and equal; all three observations expose identical values. Non-trivial = a record with >= 2 lines, or a space in the header, or invalid UTF-8. Distinct = hash(case).";
 
 pub fn run(tier: Tier) -> i32 {
     let mut run = Run::new("C13", tier, "exploration");
